@@ -242,11 +242,11 @@ def Schema.invert (S : Schema) (st : Step) (doc : Node) : Res Step :=
     | .ok (some n) =>
       match n.attrs.find? (·.1 == name) with
       | some (_, v) => .ok (.attr pos name v)
-      | none => .error .internal      -- KeyError
+      | none => .ok (.attr pos name "null")      -- `node.attrs.get(attr)` → None
   | .docAttr name _ =>
     match doc.attrs.find? (·.1 == name) with
     | some (_, v) => .ok (.docAttr name v)
-    | none => .error .internal
+    | none => .ok (.docAttr name "null")          -- `doc.attrs.get(attr)` → None
 
 /-! ### map (rebasing over a single step map; `Mappable` = StepMap here) -/
 
